@@ -414,6 +414,12 @@ func (pnf *PrevNextFinder) getPageDiff(pageURL, linkHref string, skip int) (int,
 		}
 	}
 
+	// If the two URLs differ in the middle of a number (e.g. page 10 and page 11),
+	// step back to the first digit so the whole numbers are compared.
+	for commonLen > skip && pageURL[commonLen-1] >= '0' && pageURL[commonLen-1] <= '9' {
+		commonLen--
+	}
+
 	var urlAsNumber int
 	if str := rxNumberAtStart.FindString(pageURL[commonLen:]); str != "" {
 		urlAsNumber, _ = strconv.Atoi(str)
